@@ -148,13 +148,16 @@ def _paths_line(g, L, known, grid, triples, tier, rng, directed):
     obs = core.observe(g, L, known, grid)
     qs = []
     wins = [(NoT, NoT)] + [(s, e) for s in range(lo, hi) for e in range(lo, hi)]
+    half = [(s, NoT) for s in range(lo, hi)] + [(NoT, e) for e in range(lo, hi)]     # one bound given, the other defaulted
     if tier == "quick":
-        wins = [(NoT, NoT)] + rng.sample(wins[1:], min(len(wins) - 1, 7))
+        wins = [(NoT, NoT)] + rng.sample(wins[1:], min(len(wins) - 1, 7)) + rng.sample(half, min(len(half), 3))
+    else:
+        wins = wins + half
     present = [n for n in known if g.has_node(L.node(n))]
     for u in present:
         for v in [0] + present:
             for (s, e) in wins:
-                if s != NoT and s > e and rng.random() < 0.7:
+                if s != NoT and e != NoT and s > e and rng.random() < 0.7:
                     continue
                 qs.append(_trp(g, L, u, v, s, e, 1))
                 if rng.random() < 0.1:
